@@ -306,6 +306,7 @@ class Flags:
     defaults = dict(
         max_abstract=3,
         max_concrete=6,
+        min_extra_concrete=0,
         max_fields=3,
         nested_abstract=True,
         ints=True,  # bare int
@@ -539,7 +540,7 @@ def specs(draw, fl: Flags | None = None):
         if a not in has_abs_child:
             new_conc(a, leaf_fields())
     # (3) further productions / (4) standalone concretes
-    n_more = draw(st.integers(0, max(0, fl.max_concrete - len(concretes))))
+    n_more = draw(st.integers(min(fl.min_extra_concrete, max(0, fl.max_concrete - len(concretes))), max(0, fl.max_concrete - len(concretes))))
     for _ in range(n_more):
         standalone = fl.standalone_concretes and draw(st.integers(0, 5)) == 0
         parent = None if standalone else draw(st.sampled_from(abs_names))
